@@ -85,6 +85,11 @@ let dispatch fn args = match fn, args with
     (match predictor_row_params (z_of_hex p) (z_of_hex c) (z_of_hex b) (z_of_hex k) with
      | None -> "err"
      | Some ((rs, rl), bpp) -> "ok:" ^ hex_of_z rs ^ ":" ^ hex_of_z rl ^ ":" ^ hex_of_z bpp)
+  | "cmap4_layout", [avail; format; declared; segx2] ->
+    (match cmap4_layout (z_of_hex avail) (z_of_hex format) (z_of_hex declared) (z_of_hex segx2) with
+     | None -> "err"
+     | Some (((((size, n), e), st), d), rg) ->
+       "ok:" ^ String.concat ":" (List.map hex_of_z [size; n; e; st; d; rg]))
   | "buf_to_int64", [b] -> hex_of_z (buf_to_int64 (bytes_of_hex b))
   | _ -> failwith ("unknown function " ^ fn)
 let () = main dispatch
